@@ -156,6 +156,9 @@ func Build(s *Spec) (*World, error) {
 	cl := w.Realms[0].AddClient("alice", w.Password, salt, iter)
 	w.Realms[0].AddService("HTTP/local.r0.test")
 	for k := 0; k < 3; k++ {
+		if k == 2 && s.Loop && s.Hops >= 1 {
+			continue // nobody owns SPN 2 in a loop topology
+		}
 		w.Realms[s.Hops].AddService(s.SPN(k))
 	}
 	for k := 5; k < 5+ExtraSPNs; k++ {
